@@ -12,7 +12,7 @@ def sh(cmd, cwd=None, timeout=3600):
 def main(ids):
     sd = os.path.join(ROOT, "seeded")
     ids = ids or sorted(os.listdir(sd))
-    assert sh("git -C /repo status --porcelain --untracked-files=no")[1].strip() == "", "/repo not clean"
+    assert os.environ.get("SEEDED_WORKTREE") or sh("git -C /repo status --porcelain --untracked-files=no")[1].strip() == "", "/repo not clean"
     summary = {}
     for i in ids:
         d = os.path.join(sd, i)
@@ -21,20 +21,37 @@ def main(ids):
             continue
         meta = json.load(open(mp))
         props = [meta["breaks_property"]] + meta.get("also_run", [])
-        rc, o = sh("git -C /repo apply %s" % os.path.join(d, "patch.diff"))
+        wt = None
+        if os.environ.get("SEEDED_WORKTREE"):
+            # leave /repo alone: apply the change in a scratch worktree and let the check import the package from there
+            wt = "/tmp/wt/seeded-%s-%d" % (i, os.getpid())
+            sh("git -C /repo worktree remove --force %s" % wt)
+            rc, o = sh("git -C /repo worktree add --detach %s HEAD" % wt)
+            assert rc == 0, o
+            sh("cp /repo/src/spectrum/*.so %s/src/spectrum/" % wt)
+            rc, o = sh("git apply %s" % os.path.join(d, "patch.diff"), cwd=wt)
+        else:
+            rc, o = sh("git -C /repo apply %s" % os.path.join(d, "patch.diff"))
         if rc != 0:
-            print(i, "patch does not apply:", o[:200]); continue
+            print(i, "patch does not apply:", o[:200])
+            if wt:
+                sh("git -C /repo worktree remove --force %s" % wt)
+            continue
         det = {}
         try:
             for p in props:
                 if not os.path.exists(os.path.join(ROOT, "harness", "props", p.lower() + ".py")):
                     det[p] = "no-check-yet"; continue
-                rc, o = sh("./harness/check %s quick" % p, cwd=ROOT)
+                pre = ("PYTHONPATH=%s/src VERIF_EVIDENCE_DIR=/tmp/wt/evidence-scratch VERIF_REPLAY_DIR=/tmp/wt/replays-scratch " % wt) if wt else ""
+                rc, o = sh(pre + "./harness/check %s quick" % p, cwd=ROOT)
                 v = [l for l in o.splitlines() if l.startswith("VIOLATION")]
                 det[p] = {"rc": rc, "violation": v[0] if v else None,
                           "detail": next((l.strip() for l in o.splitlines() if "violation detail" in l), None)}
         finally:
-            sh("git -C /repo checkout -- .")
+            if wt:
+                sh("git -C /repo worktree remove --force %s" % wt)
+            else:
+                sh("git -C /repo checkout -- .")
         meta["detected_by"] = det
         json.dump(meta, open(mp, "w"), indent=1)
         summary[i] = {p: (d_ if isinstance(d_, str) else ("DETECTED" if d_["rc"] == 1 else "missed(rc=%s)" % d_["rc"])) for p, d_ in det.items()}
